@@ -61,6 +61,13 @@ def model_file(trace, total, content=None):
                 raise _Raise("ConnectionResetError: [Errno 104] Connection reset by peer", ["ConnectionResetError", "ConnectionError", "OSError", "Exception", "BaseException", "object"])
         avail = max(total - state["pos"], 0)
         got = avail if size is None or size < 0 else min(size, avail)
+        if fault is not None and fault.get("kind") == "short":
+            # an injected short read: the request with this running number is served only in part (a file object may return fewer
+            # bytes than asked for; what was not delivered is still there for the next read)
+            fault["seen"] = fault.get("seen", 0) + 1
+            if fault["seen"] - 1 == fault["at"] and not fault.get("fired") and got > 1:
+                fault["fired"] = True
+                got = got // 2
         trace.events.append(("read", state["pos"], size, got))
         state["pos"] += got
         if content is not None:
@@ -125,8 +132,12 @@ def install_stubs(I, repo, trace, n_records, record_size):
             raise ShapeError("the descriptor is parsed from something that is not a byte block")
         if ln < DESCRIPTOR:
             raise _Raise(f"StreamError: descriptor needs {DESCRIPTOR} bytes, got {ln}")
-        h = DictS(OrderedDict(number_of_sar_data_records=Const(n_records), sar_data_record_length=Const(record_size)))
+        h = DictS(OrderedDict(number_of_sar_data_records=Const(n_records), sar_data_record_length=Const(record_size),
+                              sar_related_data_in_the_record=DictS(OrderedDict(number_of_lines_per_dataset=Const(n_records), number_of_data_groups_per_line=Const(5), number_of_bytes_of_sar_data_per_record=Const(record_size - PREFIX))),
+                              record_data_in_the_file=DictS(OrderedDict(number_of_sar_data_records=Const(n_records)))))
         trace.header = h
+        from .repeval import from_shape
+        trace.header_as_parsed = from_shape(h)
         return h
     sc.vars["file_descriptor_record"] = Obj("Struct", OrderedDict(parse=Fn("py", impl=parse_header, name="parse"), sizeof=Fn("py", impl=lambda I_, a, k: Const(DESCRIPTOR), name="sizeof")))
 
@@ -212,6 +223,11 @@ def run_read_metadata(repo, n_records, record_size, rpc, total=None, rpc_kw=True
     recs = None
     if isinstance(out, TupS) and len(out.elts) == 2:
         recs = out.elts[1]
+        try:
+            from .repeval import from_shape
+            trace.header_returned = from_shape(out.elts[0])
+        except Exception:
+            trace.header_returned = None
     if not isinstance(recs, ListLit):
         trace.outcome = f"undecided: read_metadata returns {out!r:.120}"
         return trace
